@@ -433,6 +433,11 @@ HeatmapA(r) ==
          ELSE LET sz == HmSizes(r)  n == Len(sz) IN
               [err |-> "", offsets |-> [k \in 1..n |-> <<sz[k][1], HmOff(sz, k), sz[k][2]>>],
                lim |-> <<0, HmOff(sz, n) + sz[n][2] + 2>>]
+(* the (start, end) keys of the table that do_heatmap assembles (pd.DataFrame.from_dict of the per-sample Series) *)
+HmAOff(r, c) == LET sz == HmSizes(r) IN HmOff(sz, SizeOf(sz, c))
+HmAKeys(r) == UNION {IF r.rk # "none"
+                     THEN {<<S(row), E(row)>> : row \in Range(HmSub(r, i, HmRegion(r).reg))}
+                     ELSE {<<S(row) + HmAOff(r, C(row)), E(row) + HmAOff(r, C(row))>> : row \in Range(HmTab(r, i))} : i \in 1..HmN(r)}
 (* what is drawn for sample i: every valued cell j spans [xs[j], xs[j+1]] *)
 HmValued(r, i) == {j \in 1..(Len(r.xs) - 1) : r.cells[i][j][1]}
 HmCells(r, i) == {<<r.xs[j], r.xs[j + 1], r.cells[i][j][2]>> : j \in HmValued(r, i)}
@@ -606,8 +611,10 @@ PdHolds(c, r) ==
     (* ---- cvg2rgb: "Choose a shade of red or blue representing log2-coverage value";
             "cutoff = 1.33  # Values above this magnitude are shown with max intensity" ---- *)
       [] c = "cr_unit_range" -> Ok(r) /\ \A j \in 1..3 : 0 <= r.rgb[j] /\ r.rgb[j] <= 1000000
-      [] c = "cr_hue" -> Ok(r) => IF r.k < 0 THEN r.rgb[1] = r.rgb[2] /\ r.rgb[2] <= r.rgb[3]
-                                  ELSE r.rgb[2] = r.rgb[3] /\ r.rgb[3] <= r.rgb[1]
+    (* (with desaturation the tint of |cvg| < 1/16 is below 0.001 and not judged) *)
+      [] c = "cr_hue" -> Ok(r) => LET faint == r.desat /\ AbsI(r.k) < 64 IN
+                                  IF r.k < 0 THEN r.rgb[1] = r.rgb[2] /\ (faint \/ r.rgb[2] <= r.rgb[3])
+                                  ELSE r.rgb[2] = r.rgb[3] /\ (faint \/ r.rgb[3] <= r.rgb[1])
       [] c = "cr_white_at_zero" -> (Ok(r) /\ r.k = 0) => r.rgb = <<1000000, 1000000, 1000000>>
       [] c = "cr_saturates" -> (Ok(r) /\ 100 * AbsI(r.k) >= 133 * 1024) => r.rgb = r.sat
     (* ---- gene_coords_by_name: "Find the chromosomal position of each named gene in probes.
@@ -827,7 +834,7 @@ PdDrift(r) ==
 
 (* ========================================================================= known findings ============= *)
 PdKnownTriggers == {"EmptyGeneList", "VariantsShareBin", "VariantInsideBin", "OpenStart", "LastSampleShorter", "ByBinGeneOnly",
-                    "LastGeneNotRightmost"}
+                    "LastGeneNotRightmost", "TwoIntervalsGap"}
 PdTriggerHolds(t, r) ==
     CASE t = "EmptyGeneList" ->          \* -g given but no gene name in it, and the chromosome-level plot is reached
             r.op = "select" /\ r.hg /\ Req(r) = {} /\ (GeneTruthy(r) \/ r.rk # "none")
@@ -844,6 +851,13 @@ PdTriggerHolds(t, r) ==
             r.op = "heatmap" /\ r.rk = "none" /\ (\A i \in 1..HmN(r) : HmSimple(r, i).err = "") /\
             \E k \in 1..Len(HmSizes(r)) : \E i \in 1..HmN(r) :
                 HmSizes(r)[k][1] \in Chroms(HmTab(r, i)) /\ MaxEndOn(HmTab(r, i), HmSizes(r)[k][1]) > HmSizes(r)[k][2]
+      [] t = "TwoIntervalsGap" ->        \* exactly two distinct intervals to draw, not abutting: log2_df.loc[0.5, :] = ... on a
+                                         \* 2-row RangeIndex (pandas 3 RangeIndex.insert computes a step of 0)
+            r.op = "heatmap" /\ HmRegion(r).err = "" /\ (\A i \in 1..HmN(r) : HmSimple(r, i).err = "") /\
+            LET ks == HmAKeys(r) IN Cardinality(ks) = 2 /\
+                LET k1 == CHOOSE x \in ks : \A y \in ks : x[1] < y[1] \/ (x[1] = y[1] /\ x[2] <= y[2])
+                    k2 == CHOOSE y \in ks : y # k1
+                IN k1[2] # k2[1]
       [] t = "ByBinGeneOnly" ->          \* --by-bin with -g and without -c
             r.op = "select" /\ r.bybin /\ r.rk = "none" /\ GeneTruthy(r)
       [] t = "LastGeneNotRightmost" ->   \* the selected gene that starts last does not have the largest end
@@ -859,6 +873,7 @@ TriggerClauses(t) ==
       [] t = "OpenStart" -> {"lbl_open_start_doc", "sel_dash_all_genes"}
       [] t = "LastSampleShorter" -> {"hm_slots_disjoint"}
       [] t = "ByBinGeneOnly" -> {"sel_gene_window"}
+      [] t = "TwoIntervalsGap" -> {"hm_noerr"}
       [] t = "LastGeneNotRightmost" -> {"sel_gene_window"}
       [] OTHER -> {}
 Explained(c, r) == \E t \in PdKnownTriggers : c \in TriggerClauses(t) /\ PdTriggerHolds(t, r)
